@@ -8,7 +8,7 @@ import itertools
 
 import facts
 import q
-from facts import walk, walk_with_path, peel, lit, call_is, variant_of, adt_is, pat_str, or_pats, strip_ref, subpat
+from facts import walk, walk_with_path, peel, unblock, lit, call_is, variant_of, adt_is, pat_str, or_pats, strip_ref, subpat
 from show import show
 
 SPEC_KEYWORDS = {
@@ -77,6 +77,57 @@ def eval_table(n, env):
                 return eval_table(a["body"], e2)
         raise ValueError("no arm matched %r" % (val,))
     raise ValueError("unsupported node %s in table: %s" % (k, show(n0)[:80]))
+
+
+def keyword_table(F, tk):
+    """rows (word, token constructor node, site, skip-formula-ok) of a table-driven keyword recogniser in tokenise, [] if there is none"""
+    rows = []
+    for n in walk(tk.body):
+        if n.get("k") != "If" or peel(n["cond"]).get("k") != "LetCond":
+            continue
+        lc = peel(n["cond"])
+        fnd = peel(lc["arg"])
+        if not (call_is(fnd, "Iterator::find") and len(fnd["args"]) == 2 and peel(fnd["args"][1]).get("k") == "Closure"):
+            continue
+        src = peel(fnd["args"][0])
+        while src.get("k") == "Call" and (src.get("fn") or "").endswith(("::iter", "IntoIterator::into_iter", "Deref::deref")) and len(src["args"]) == 1:
+            src = peel(src["args"][0])
+        if not (src.get("k") == "Array" and src.get("const") and all(peel(r).get("k") == "Tuple" and len(peel(r)["fields"]) == 2 and lit(peel(r)["fields"][0]) and lit(peel(r)["fields"][0])[0] == "s" for r in src["fields"])):
+            continue
+        # the predicate: match_ahead(it, <first component>)
+        clo = F.fns.get(peel(fnd["args"][1])["def"])
+        cps = [strip_ref(p["pat"]) for p in clo.thir["params"] if p.get("pat") is not None] if clo is not None and clo.thir is not None else []
+        cb = unblock(clo.body) if cps else {}
+        first_ids = set()
+        if len(cps) == 1:
+            pp = cps[0]
+            while pp.get("k") in ("Deref",) and pp.get("sub"):
+                pp = strip_ref(pp["sub"])
+            if pp.get("k") == "Leaf" and pp["sub"]:
+                first_ids = {b[1] for sp_ in pp["sub"] if sp_["i"] == 0 for b in facts.pat_binds(sp_["p"])}
+        okpred = call_is(cb, "tokeniser::match_ahead") and len(cb["args"]) == 2 and q.base_var(cb["args"][1]) in first_ids
+        # the action: push(token.clone()) ; it.nth(word.len() - 2)
+        pat = strip_ref(subpat(lc["pat"], 0)) if variant_of(lc["pat"]) == ("Option", "Some") else None
+        wid = tid = None
+        if pat is not None and pat.get("k") == "Leaf":
+            for sp_ in pat["sub"]:
+                b = strip_ref(sp_["p"])
+                if b.get("k") == "Bind":
+                    if sp_["i"] == 0:
+                        wid = b["id"]
+                    else:
+                        tid = b["id"]
+        pushes = [x for x in walk(n["then"]) if call_is(x, "::push")]
+        nths = [x for x in walk(n["then"]) if call_is(x, "Iterator::nth")]
+        okpush = len(pushes) == 1 and call_is(peel(pushes[0]["args"][1]), "Clone::clone") and q.base_var(peel(pushes[0]["args"][1])["args"][0]) == tid and tid is not None
+        oknth = False
+        if len(nths) == 1:
+            k_ = peel(nths[0]["args"][1])
+            oknth = k_.get("k") == "Binary" and k_["op"] == "Sub" and call_is(peel(k_["lhs"]), "::len") and q.base_var(peel(k_["lhs"])["args"][0]) == wid and wid is not None and lit(k_["rhs"]) == ("i", 2)
+        for r in src["fields"]:
+            r = peel(r)
+            rows.append((lit(r["fields"][0])[1], peel(r["fields"][1]), n["sp"], okpred and okpush and oknth))
+    return rows
 
 
 def run(rep):
@@ -351,6 +402,19 @@ def run(rep):
                 rep.check(word[-1:] in (" ", "("), "T-KEYWORD", "T-KEYWORD/delimited/" + word, site, "keyword literal ends in a space or '(' so that longer words stay identifiers", repr(word))
                 k = lit(nths[0]["args"][1])[1] if len(nths) == 1 and lit(nths[0]["args"][1]) else None
                 rep.check(k is not None and k == len(word) - 2, "T-KEYWORD", "T-KEYWORD/skip/" + word, site, "it.nth(k) consumes the keyword but not its final delimiter (k == len-2)", "k=%s len=%d" % (k, len(word)))
+        # table-driven form: `if let Some((word, token)) = TABLE.iter().find(|(word, _)| match_ahead(it, word)) { push(token.clone()); it.nth(word.len() - 2) }`
+        for row in keyword_table(F, tk):
+            word, a, site, formula_ok = row
+            tokv = None
+            if a.get("k") == "Adt" and a["fields"]:
+                inner = peel(a["fields"][0]["e"])
+                if inner.get("k") == "Adt":
+                    tokv = (a["variant"], inner["adt"].split("::")[-1] + "::" + inner["variant"])
+            seen[word] = tokv
+            spec = SPEC_KEYWORDS.get(word)
+            rep.check(spec is not None and tokv == spec, "T-KEYWORD", "T-KEYWORD/token/" + word, site, "table row %r produces %s" % (word, spec), "got %s" % (tokv,))
+            rep.check(word[-1:] in (" ", "("), "T-KEYWORD", "T-KEYWORD/delimited/" + word, site, "keyword literal ends in a space or '(' so that longer words stay identifiers", repr(word))
+            rep.check(formula_ok and len(word) >= 2, "T-KEYWORD", "T-KEYWORD/skip/" + word, site, "it.nth(word.len() - 2) consumes the keyword but not its final delimiter", "formula %s len=%d" % (formula_ok, len(word)))
         for w in SPEC_KEYWORDS:
             if w not in seen:
                 rep.bad("T-KEYWORD", "T-KEYWORD/missing/" + w, tk.sp, "keyword %r is recognised" % w, "no match_ahead for it")
